@@ -337,13 +337,72 @@ func run(c *mon.Ctx) {
 					src := append([]byte{}, p[:]...)
 					q2, _ := packet.FromBytes(src)
 					src[100] ^= 0xff
-					if q2 == nil || q2[100] == src[100] {
-						c.Fail("validate:FromBytes-alias", "the packet returned by FromBytes aliases the caller's slice", wit{Op: "FromBytes"})
+					if q2 != nil && q2[100] == src[100] {
+						// the statement does not say whether the packet is a copy or a view of the slice (the first
+						// version of this check demanded a copy; DESIGN section 7)
+						c.Count("frombytes.returns_a_view")
+					}
+					if q2 == nil {
+						c.Fail("validate:FromBytes-188", "FromBytes rejected a valid 188-byte slice on the second call", wit{Op: "FromBytes"})
 					}
 				}
 			}
 			c.Class(fmt.Sprintf("validate/sync47=%v/tsc=%d/afc=%d", b0 == 0x47, tsc, afc))
 		}
+	})
+	// ---- the copy-returning helpers over long runs of calls: results are kept, and fed back as arguments
+	// after 1, 255, 256, 257, 512 ... further calls; no call may change its argument or an earlier result
+	c.Stream("helper-chains", c.N(6, 400), func(i int, r *gen.Rand) {
+		type kept struct {
+			p    *packet.Packet
+			want packet.Packet
+		}
+		var res []kept
+		for n := 0; n < 900; n++ {
+			var arg *packet.Packet
+			if back := r.PickInt([]int{0, 1, 2, 255, 256, 256, 257, 512, 768, 1 + r.Intn(900)}); back > 0 && back <= len(res) {
+				arg = res[len(res)-back].p
+			} else {
+				a := body(n%5, r)
+				arg = &a
+			}
+			before := *arg
+			var got *packet.Packet
+			var want packet.Packet = before
+			op := r.Intn(3)
+			switch op {
+			case 0:
+				got = packet.IncrementCC(arg)
+				want[3] = want[3]&0xf0 | (want[3]+1)&0x0f
+			case 1:
+				got = packet.ZeroCC(arg)
+				want[3] &= 0xf0
+			default:
+				v := uint8(r.Intn(16))
+				got = packet.SetCC(arg, v)
+				want[3] = want[3]&0xf0 | v
+			}
+			c.Eval(1)
+			name := []string{"IncrementCC", "ZeroCC", "SetCC"}[op]
+			if *arg != before {
+				c.Fail("helper:"+name+"-mutates-arg", fmt.Sprintf("call %d of a run: packet.%s modified its argument (a result returned earlier in the run)", n, name), wit{Op: name, Before: mon.Hex(before[:]), After: mon.Hex(arg[:])})
+				return
+			}
+			if got == nil || *got != want {
+				c.Fail("helper:"+name, fmt.Sprintf("call %d of a run: packet.%s did not return the argument with only the counter changed", n, name), wit{Op: name, Before: mon.Hex(before[:])})
+				return
+			}
+			res = append(res, kept{got, want})
+			if n%64 == 63 || n == 899 {
+				for k, e := range res {
+					if *e.p != e.want {
+						c.Fail("helper:earlier-result-changed", fmt.Sprintf("the packet returned by call %d of a run changed by call %d", k, n), wit{Op: "IncrementCC/ZeroCC/SetCC", Before: mon.Hex(e.want[:]), After: mon.Hex(e.p[:])})
+						return
+					}
+				}
+			}
+		}
+		c.Class("helper-chains")
 	})
 	c.StreamSeedless("frombytes-length", 401, func(n int, r *gen.Rand) {
 		b := r.Bytes(n)
@@ -385,6 +444,28 @@ func run(c *mon.Ctx) {
 			}
 		}
 		c.Class(fmt.Sprintf("frombytes/len-class=%d", lenClass(n)))
+	})
+	// lengths that are 188 modulo a power of two (a length difference narrowed to 8 or 16 bits), multiples of 188, 64 KiB
+	c.StreamSeedless("frombytes-long", 1, func(_ int, r *gen.Rand) {
+		var ns []int
+		for k := 1; k <= 260; k++ {
+			ns = append(ns, 188+256*k, 188*k+188)
+		}
+		ns = append(ns, 188+65536, 188+2*65536, 65536, 65535, 65537, 188+1<<20)
+		buf := make([]byte, 188+1<<20)
+		r.Fill(buf[:4096])
+		buf[0], buf[3] = 0x47, 0x10
+		for _, n := range ns {
+			if n == 188 {
+				continue
+			}
+			c.Eval(1)
+			if q, err := packet.FromBytes(buf[:n]); err == nil || q != nil {
+				c.Fail("validate:FromBytes-length", fmt.Sprintf("FromBytes accepted a slice of %d bytes", n), wit{Op: "FromBytes", Arg: fmt.Sprint(n)})
+				break
+			}
+		}
+		c.Class("frombytes/long")
 	})
 
 	// ---- equality: identical copies, same pointer, nil, every single-bit difference
